@@ -25,14 +25,21 @@ ASSUMPTIONS = ["Rust-level undefined behaviour that does not show as an out-of-w
                "the Coq theorems of this check cover the model of the strict slicing path (no failing unchecked "
                "primitive) and the accessor / to_header / to_packet / extension-iterator models of Parse/Access.v for "
                "all strict slice types (C01_accessors_no_oob, C01_windows_inside, C01_single_layer_accessors, "
-               "C01_exts_iter_items; C02_accessors_total, C02_*_unwrap, C02_exts_iter_bounded); lax and struct "
-               "decoders: C05/C04; TCP options iterator: C13",
+               "C01_exts_iter_items; C02_accessors_total, C02_*_unwrap, C02_exts_iter_bounded), the same for every "
+               "component of every LAX whole-packet result whatever its stop error (Parse/LaxAccess.v: "
+               "C01_lax_sliced_wf, C01_lax_accessors_no_oob, C01_lax_windows_inside, C01_lax_exts_iter_items -- the "
+               "extension iterator on a chain that was cut --, C01_lax_single_layer_accessors; C02_lax_accessors_total, "
+               "C02_lax_exts_iter_bounded) and IpSlice::to_header's expect for strict IP slices "
+               "(C02_ip_slice_to_header_expect, via the C04 lockstep lemma); the lax slicers themselves and the "
+               "struct decoders: C05/C04; TCP options iterator: C13",
                "the accessor models are hand transliterations; their returned windows are compared with the crate on "
-               "every case for the 4 strict whole-packet entry points (c01acc), their VALUES (field decoding) are "
-               "not compared here (field layout is the subject of C08); not modelled: IpSlice::to_header's expect "
-               "(Ipv6Extensions::from_slice on the validated chain), Debug/Display formatting, checksum "
-               "calculators beyond their checked sub-slicing, Icmpv6Slice::payload_slice (NDP), "
-               "LaxSlice/struct-decoder accessors"]
+               "every case for the 4 strict and the 3 lax whole-packet entry points (c01acc; lax lines also compare "
+               "vlan_ids()), their VALUES (field decoding) are not compared here (field layout is the subject of "
+               "C08); IpSlice::to_header is modelled through C04's struct-decoder model (Parse/HdrModel.v) and only "
+               "exercised, not compared, by the harness; not modelled: Debug/Display formatting, checksum "
+               "calculators beyond their checked sub-slicing, Icmpv6Slice::payload_slice (NDP), accessors of the "
+               "struct-decoder results (PacketHeaders / LaxPacketHeaders), LaxIpSlice built by the single-layer "
+               "LaxIpv4Slice/LaxIpv6Slice constructors is covered by theorem only (no separate harness lines)"]
 KINDS = ("PANIC", "CRASH", "OUTSIDE", "DIFF", "HANG", "NOT-RUN")
 ORACLE_KINDS = ("CRASH", "OUTSIDE", "DIFF", "HANG")      # C02 overrides
 
@@ -71,10 +78,11 @@ def gen_cases(rng, tier):
 
 
 def acc_windows_compare(ctx, cases):
-    """extra correspondence (C01 only): every sub-slice stored in a strict whole-packet result or returned by an
-    accessor of one of its components -- the window list of the Coq accessor model (Parse/Access.v,
-    SlicedPacketA.windows, extracted by ExtC01.v into ocaml/run_c01acc) against the crate (harness bin c01acc);
-    the model line also says BUG when any accessor run of the model hits Bug"""
+    """extra correspondence (C01 only): every sub-slice stored in a strict or lax whole-packet result or returned
+    by an accessor of one of its components -- the window list of the Coq accessor model (Parse/Access.v
+    SlicedPacketA.windows, Parse/LaxAccess.v LaxSlicedPacketA.windows + vlan_ids, extracted by ExtC01.v into
+    ocaml/run_c01acc) against the crate (harness bin c01acc); the model line also says BUG when any accessor
+    run of the model hits Bug"""
     ok, out = vlib.ocaml_build("ExtC01.v", "m_c01", "run_c01acc")
     if not ok:
         return [(0, "c01acc: extraction / model runner build failed: " + out[-400:])], {}
@@ -84,20 +92,29 @@ def acc_windows_compare(ctx, cases):
     ets = ["et:2048", "et:34525", "et:33024", "et:35045", "et:2054", "et:34984", "et:37120"]
     lines, idx = [], []
     for i, c in enumerate(cases):
-        for e in ("eth", "sll", "ip", ets[i % len(ets)]):
+        # strict entry points, then (extend-c01b) the three lax ones: LaxSlicedPacketA.windows of
+        # Parse/LaxAccess.v (+ vlan_ids) against the crate
+        lax = ("leth", "lip", "l" + ets[(i // len(ets)) % len(ets)])
+        if getattr(ctx, "tier", "quick") == "thorough":
+            lax = (lax[i % 3],)        # thorough tier: 40x the cases, one rotating lax entry point per case
+        for e in ("eth", "sll", "ip", ets[i % len(ets)]) + lax:
             lines.append(e + " " + c)
             idx.append(i)
     m = vlib.run_sharded([os.path.join(vlib.OCAML, "bin", "run_c01acc")], lines, "C01acc_m")
     r = vlib.run_sharded([exe], lines, "C01acc_i")
-    mism, okc, wins = [], 0, 0
+    mism, okc, wins, lax_runs, lax_ok = [], 0, 0, 0, 0
     for k, (a, b) in enumerate(zip(m, r)):
+        lax = lines[k].startswith("l")
+        lax_runs += lax
         if a != b:
             mism.append((idx[k], "accessor windows differ for `%s`: model `%s` / crate `%s`" % (lines[k][:120], a[:300], b[:300])))
         elif a.startswith("ok"):
             okc += 1
             wins += a.count("+")
+            lax_ok += lax
     return mism, {"accessor_window_runs": len(lines), "accessor_window_runs_accepted": okc,
-                  "accessor_windows_equal": wins}
+                  "accessor_windows_equal": wins, "accessor_window_runs_lax": lax_runs,
+                  "accessor_window_runs_lax_accepted": lax_ok}
 
 
 def compare(ctx, cases, impl, model_lines, oracle_kinds=None):
@@ -133,8 +150,9 @@ def compare(ctx, cases, impl, model_lines, oracle_kinds=None):
     if ctx.pid == "C01":
         mism, ex2 = acc_windows_compare(ctx, cases)
         extra.update(ex2)
-        extra["model_side"] = ("accessor model Parse/Access.v: window list of every strict whole-packet result "
-                               "(4 entry points) compared with the crate (c01acc); all other decoders: runtime witness only")
+        extra["model_side"] = ("accessor models Parse/Access.v + Parse/LaxAccess.v: window list of every strict "
+                               "(4 entry points) and lax (3 entry points) whole-packet result compared with the crate "
+                               "(c01acc); all other decoders: runtime witness only")
     else:
         extra["model_side"] = "none in this check (accessor windows are compared in C01/C03; this check is the runtime witness)"
     return {"corr_mismatch": mism, "oracle_fail": orc, "hist": hist, "nontrivial": nontriv,
